@@ -46,6 +46,12 @@ def find_iter_obj(I, st, val, tid, depth=0):
     """the generic::memchr::Iter value inside an iterator object: returns (lvalue of it, AdtV)"""
     if depth > 4 or val is None:
         return None
+    if isinstance(val, AdtV) and val.fields is not None and not isinstance(val.tid, tuple):
+        # iterator passed by value (e.g. Iterator::count(self))
+        for i, f in enumerate(val.fields):
+            if isinstance(f, AdtV) and not isinstance(f.tid, tuple) and I.P.types[f.tid].get('path') == 'arch::generic::memchr::Iter':
+                return (None, f)
+        return None
     if isinstance(val, RefV) and isinstance(val.lv, LVObj) and not isinstance(val.lv.obj, tuple):
         base = st.heap.get(val.lv.obj)
         v = I.nav(base, val.lv.path) if base is not None else None
@@ -71,6 +77,15 @@ def spec_for(P, inst):
     m = re.match(r'^' + FACADE + r'::(find_raw|rfind_raw)$', p)
     if m:
         return {'kind': 'raw', 'mode': 'rev' if m.group(3) == 'rfind_raw' else 'fwd', 'needles': 'self', 'n': N_OF[m.group(2)]}
+    m = re.match(r"^<(memchr::Memchr([23]?)<'h>|" + FACADE + r"Iter<'a, 'h>) as core::iter::Iterator>::size_hint$", p)
+    if m:
+        return {'kind': 'iter', 'mode': 'size_hint', 'needles': 'self', 'n': (N_OF[m.group(2) or ''] if m.group(1).startswith('memchr::') else N_OF[m.group(4)])}
+    m = re.match(r'^' + FACADE + r'::(count|count_raw)$', p)
+    if m:
+        return {'kind': 'raw' if m.group(3) == 'count_raw' else 'slice', 'mode': 'count', 'needles': 'self', 'n': 1}
+    m = re.match(r"^<(memchr::Memchr<'h>|" + FACADE + r"Iter<'a, 'h>) as core::iter::Iterator>::count$", p)
+    if m:
+        return {'kind': 'iter', 'mode': 'count', 'needles': 'self', 'n': 1}
     m = re.match(r"^<(memchr::Memchr([23]?)<'h>|" + FACADE + r"Iter<'a, 'h>) as core::iter::(Iterator>::next|DoubleEndedIterator>::next_back)$", p)
     if m:
         n = N_OF[m.group(2) or ''] if m.group(1).startswith('memchr::') else N_OF[m.group(4)]
@@ -110,7 +125,8 @@ def install(spec, base_contract):
                 if len(ptrs) == 3:
                     e3.init_search(I, st, ptrs[0].r, ptrs[1].off, ptrs[2].off, needles)
                     info['index_base'] = ptrs[0].off
-                    info['iter_lv'] = lv
+                    if lv is not None:
+                        info['iter_lv'] = lv
                     info['old'] = (ptrs[0].off, ptrs[1].off, ptrs[2].off)
         st.ghost['spec_info'] = info
         return args
@@ -133,6 +149,12 @@ def post(spec):
              '' if ok_n else f"expected {spec['n']} needle(s), found {info.get('n_found')} in the searcher value")
         if 'search' not in results[0][0].ghost:
             I.ob('POST', fr, inst.loc, 'spec: haystack identified', False, 'could not identify the searched byte range from the arguments')
+            return
+        if spec['mode'] == 'count':
+            e3.check_count_post(I, inst, results)
+            return
+        if spec['mode'] == 'size_hint':
+            check_size_hint(I, inst, results)
             return
         e3.check_search_post(I, inst, results, spec['mode'], 'ptr' if spec['kind'] == 'raw' else 'index', info.get('index_base'))
         if spec['kind'] == 'iter' and 'iter_lv' in info:
@@ -176,3 +198,25 @@ def check_iter_transfer(I, inst, results, spec, info):
                 ok = same_o and s.entails_eq(e1 - found) and s.entails_eq(s1 - s0)
                 I.ob('IT-TRANSFER', fr, inst.loc, f'{tag}: Some(i) => end := found, start unchanged', ok,
                      '' if ok else f"end' = {s.nf(e1)}, found = {s.nf(found)}, start' = {s.nf(s1)}, start = {s.nf(s0)}")
+
+
+def check_size_hint(I, inst, results):
+    """(lo, Some(hi)): lo <= 0 ... every remaining match is a distinct position of the window, so
+    any lower bound other than 0 is unprovable here and hi must be at least end - start"""
+    fr = _Fr(inst)
+    for st, ret in results:
+        sr = st.ghost.get('search')
+        if sr is None or not st.store.check_sat():
+            continue
+        s = st.store
+        ok_lo, ok_hi, det = False, False, ''
+        if isinstance(ret, AdtV) and ret.fields is not None and len(ret.fields) == 2:
+            lo, hi = ret.fields
+            ok_lo = isinstance(lo, IntV) and s.entails_le(lo.e)
+            if isinstance(hi, AdtV) and hi.variant == 0:
+                ok_hi = True
+            elif isinstance(hi, AdtV) and hi.variant == 1 and isinstance(hi.fields[0], IntV):
+                ok_hi = s.entails_le((sr['end'] - sr['start']) - hi.fields[0].e)
+                det = f"upper = {s.nf(hi.fields[0].e)}, window length = {s.nf(sr['end'] - sr['start'])}"
+        I.ob('SIZE-HINT', fr, inst.loc, 'size_hint: lower bound is 0', ok_lo, '' if ok_lo else f"lower bound {ret}")
+        I.ob('SIZE-HINT', fr, inst.loc, 'size_hint: upper bound >= end - start', ok_hi, '' if ok_hi else det)
